@@ -6,6 +6,7 @@ import itertools
 import random
 
 from .. import harness as H
+from ..sim import sched
 from .. import monitors as M
 from ..ref import rfc6455 as R
 from ..ref import utf8 as U
@@ -62,6 +63,14 @@ REASONS = {
     "truncated": b"ok\xe2\x82",
     "overlong": b"\xc0\xaf",
 }
+# long reasons with structure: a multi-byte sequence whose lead byte ends a 2^n-byte block, one or two whole ASCII blocks, then the
+# continuation bytes (ill-formed), and the same bytes with the sequence kept together (well-formed)
+for _blk in (8, 16, 32):
+    for _seq in (b"\xc3\xa9", b"\xe2\x82\xac"):
+        for _nblocks in (1, 2):
+            if _blk - 1 + len(_seq) + _blk * _nblocks <= 123:
+                REASONS[f"blocksplit-{_blk}x{_nblocks}-{len(_seq)}"] = b"a" * (_blk - 1) + _seq[:1] + b"b" * (_blk * _nblocks) + _seq[1:]
+                REASONS[f"blockjoined-{_blk}x{_nblocks}-{len(_seq)}"] = b"a" * (_blk - 1) + _seq + b"b" * (_blk * _nblocks)
 
 
 def run(res, tier, seed, shard, nshards):
@@ -89,6 +98,8 @@ def run(res, tier, seed, shard, nshards):
         for rk in REASONS:
             if tier == "quick" and rk not in ("none", "ascii") and code % 5 and code not in (1000, 1001, 3000, 4999):
                 continue
+            if rk.startswith("block") and code not in (1000, 1011, 3000, 4999) and (tier == "quick" or code % 97):
+                continue
             cases.append(("close", code, rk))
     cases.append(("close1", 0, "none"))
     for b in (0, 3, 0x80, 0xff):
@@ -101,6 +112,13 @@ def run(res, tier, seed, shard, nshards):
             if "CLOSE" in seq[:-1]:
                 continue
             cases.append(("seq", seq))
+    # (c') sequencing after a message was rejected for its *payload* (ill-formed text): the connection stays in the idle state,
+    # so a continuation is forbidden and a new data frame is legal
+    for nfrag in (1, 2, 3):
+        for bad in (b"\xc0\xaf", b"\xe2\x82", b"a\xffb"):
+            for nxt in ("C1", "C0", "T1", "B1", "T0", "B0", "PING"):
+                for name in ("recv_data_frame", "recv_data", "recv"):
+                    cases.append(("after-payload-rejection", nfrag, bad, nxt, name))
     # (d) random longer sequences
     for i in range(300 if tier == "quick" else 6000):
         cases.append(("rseq", i))
@@ -114,6 +132,8 @@ def run(res, tier, seed, shard, nshards):
             elif c[0] in ("close", "close1"):
                 W.enableTrace(False)
                 close_case(res, W, rng, c)
+            elif c[0] == "after-payload-rejection":
+                after_payload_rejection_case(res, W, rng, c)
             elif c[0] == "seq":
                 seq_case(res, W, rng, c[1], exhaustive=True)
             else:
@@ -165,6 +185,59 @@ def close_case(res, W, rng, c):
     res.count("close_class:" + cls)
     for name in (("recv_data_frame", "recv") if code % 3 == 0 or kind == "close1" else ("recv_data_frame",)):
         judge(res, W, stream, [(name, True)], (kind, code, rk, name), frame_under_test=(0, f))
+
+
+def after_payload_rejection_case(res, W, rng, c):
+    _, nfrag, bad, nxt, name = c
+    cut = [bad] if nfrag == 1 else [bad[:1], bad[1:]] if nfrag == 2 else [b"", bad[:1], bad[1:]]
+    stream = b"".join(R.encode(R.TEXT if i == 0 else R.CONT, f, fin=1 if i == len(cut) - 1 else 0) for i, f in enumerate(cut))
+    stream += kind_frame(nxt, 1)
+    if nxt in ("T0", "B0"):
+        stream += kind_frame("C1", 2)
+    stream += R.encode(R.BINARY, b"SENT")
+    w, conn, peer = H.connected_ws(after=stream, timeout=1)
+    case = {"gen": "after-payload-rejection", "stream": stream, "call": name, "next": nxt}
+
+    def call():
+        try:
+            if name == "recv":
+                return ("value", w.recv())
+            if name == "recv_data":
+                return ("value", w.recv_data(True))
+            op, fr = w.recv_data_frame(True)
+            return ("value", (op, fr.data))
+        except BaseException as e:  # noqa
+            if isinstance(e, (sched.SimAbort, KeyboardInterrupt)):
+                raise
+            return ("exc", e)
+
+    first = call()
+    res.case(("apr", nfrag, bad, nxt, name), nontrivial=True)
+    if not (first[0] == "exc" and isinstance(first[1], (W.WebSocketPayloadException, W.WebSocketProtocolException))):
+        return  # whether ill-formed text is rejected is C06's question
+    if not w.connected:
+        return
+    res.count("after_payload_rejection_cases")
+    second = call()
+    if nxt in ("C0", "C1"):
+        res.count("must_reject_seen")
+        if not (second[0] == "exc" and isinstance(second[1], W.WebSocketProtocolException)):
+            res.violation("illegal-accepted", f"after a text message rejected for its payload ({nfrag} fragment(s)), a continuation frame with no message in progress "
+                          f"through {name}: got {second[0]} {repr(second[1])[:80]}", case, gen="after-payload-rejection", next=nxt)
+        return
+    res.count("must_accept_seen")
+    exp = {"T1": (R.TEXT, b"TB"), "B1": (R.BINARY, b"\xffB"), "T0": (R.TEXT, b"tBCC"), "B0": (R.BINARY, b"\x00BCC"), "PING": (R.PING, b"pB")}[nxt]
+    if nxt == "PING" and name == "recv":
+        exp = (R.BINARY, b"SENT")  # recv() answers the ping and goes on to the next message
+    if second[0] == "exc":
+        res.violation("legal-rejected", f"after a text message rejected for its payload ({nfrag} fragment(s)), a legal {nxt} frame through {name} raised "
+                      f"{type(second[1]).__name__}: {second[1]}", case, gen="after-payload-rejection", next=nxt)
+        return
+    v = second[1]
+    got = (exp[0], v.encode() if isinstance(v, str) else bytes(v)) if name == "recv" else (v[0], bytes(v[1]))
+    if got != exp:
+        res.violation("value-mismatch", f"after a text message rejected for its payload, {nxt} through {name}: expected {exp}, got {got}", case,
+                      gen="after-payload-rejection", next=nxt)
 
 
 def seq_case(res, W, rng, seq, exhaustive):
